@@ -15,7 +15,7 @@ import time
 from .pipeline import AnalysisBroken, VERIF
 
 PROVED, REFUTED, ASSUMED = "proved", "refuted", "assumed"
-EVIDENCE_DIR = os.path.join(VERIF, "evidence")
+EVIDENCE_DIR = os.environ.get("VERIF_EVIDENCE_DIR", os.path.join(VERIF, "evidence"))
 REPLAY_DIR = os.path.join(EVIDENCE_DIR, "replay")
 KNOWN = os.path.join(VERIF, "known_findings.txt")
 EXPECT = os.path.join(VERIF, "rules", "expect.json")
@@ -178,7 +178,7 @@ class Check:
         return rc
 
     def _fmt(self, o):
-        s = "%s %s at %s: %s" % (o["rule"], o["key"], o["where"] or "?", o["detail"])
+        s = "%s %s at %s: %s" % (o["rule"], o["key"], o["where"] or "?", o["detail"][:700])
         if o["variants"]:
             s += " [%s]" % ",".join(o["variants"][:10])
         return s
